@@ -43,12 +43,13 @@ claim('C17', 'CFG must-pass-through on the status test with provenance of the te
       'auto-registration loop and parse_response field copy complete. Does not decide clock values or real concurrency.',
       'NFD management protocol tables (status 200, 0x65/0x66/0x67/0x68); asyncio.Semaphore semantics')
 
-claim('C19', 'CFG path rules (exactly-one-yield between fetches), induction-variable analysis of the retry counter, handler-tuple check, provenance of the yielded value',
+claim('C19', 'path-sensitive walk of the generator under the six valuations of (segmented, segment 0, final) with a request/yield trace state, induction-variable analysis of the retry counter, handler-tuple check, provenance of the yielded value',
       'Decides the shape of the retry loop (handler around the awaited Interest catches exactly InterestTimeout; attempts == '
       'retry_times from init/step/test/position of the counter; exhaustion re-raises; a timed-out Interest is re-expressed with the '
-      'caller\'s parameters) and of the generator (between two fetches exactly one yield of element 2 of the fetched tuple; segment '
-      'counter +1 per cycle, 0/1 start on the right branch of the segment-0 test; final-block test after the yield ends fetching; '
-      'unsegmented path yields once). Does not decide loss patterns or producer behaviour.',
+      'caller\'s parameters) and of the generator: on every path under each valuation every answer is yielded once (element 2 of the '
+      'fetched tuple) before the next request or the end, only a discovery answer that is a segment other than 0 is discarded, request '
+      'k asks for the segment after the k yielded so far, nothing is requested after a final or unsegmented answer and the generator '
+      'does not end before one. Does not decide loss patterns or producer behaviour.',
       'express_interest contract; Component.from_segment/to_number semantics')
 
 claim('C20', 'ordering of classified writes over the CFG, constant folding of environment names, finite-domain evaluation of scheme dispatch, sibling-contradiction check on scheme:location splits',
@@ -56,7 +57,8 @@ claim('C20', 'ordering of classified writes over the CFG, constant folding of en
       'source over all its keys (resolution only pib/tpm), missing keys tolerated without overwriting; folded environment names; '
       'get_path first-existing; default_face / default_keychain scheme tables by enumerating every scheme value plus "other" '
       '(raising default), default port 6363 only when absent; scheme:location splits at most once everywhere; resolve_location '
-      'fallback chain guarded by existence tests. Does not decide file-system state or ConfigParser/urlparse behaviour.',
+      'walked under 40 valuations of (colon, empty, absolute, exists as given, file present, exists relative, item) returns given / '
+      'relative to the file / platform default as specified. Does not decide file-system state or ConfigParser/urlparse behaviour.',
       'ConfigParser, urlparse and os.path semantics')
 
 claim('C18', 'exception-escape set of the handler, CFG ordering (no state write before the over-claim return), guard-polarity must-pass-through on stores, provenance of accumulator reads, loop/decision shape of the timer',
@@ -65,7 +67,7 @@ claim('C18', 'exception-escape set of the handler, CFG ordering (no state write 
       'need_fetch set exactly with a raise and on_missing_data fires iff need_fetch on every path; aggregate is '
       'max(agg_sv.get(k,0), v) and a suppression period starts from a copy of its first vector; on_timer sends iff necessary, '
       'suppression overridden only by agg_sv.get(id,0) < local over all local entries, steady state never suppressed; new_data '
-      '+1/own id/timer armed; sync Interest carries every local entry. the periodic timer is restarted only when no emission is already due; Does not decide timers or suppression timing.',
+      '(linear execution on every path) leaves counter, stored entry and returned value at entry value + 1 and arms the timer; sync Interest carries every local entry. the periodic timer is restarted only when no emission is already due; Does not decide timers or suppression timing.',
       'user callback on_missing_data does not raise; asyncio timer behaviour')
 
 claim('C14', 'default-argument lint, finite-domain dispatch evaluation over SignatureType, must-pass-through and provenance of key material, wiring checks of the validator composition',
@@ -129,7 +131,8 @@ claim('C13', 'guard-existence and raising-edge analysis against the documented s
       'Decides: each of the six documented sanity rules has a test of the right shape whose violating edge raises LvsModelError, inside '
       'a walk that starts at start_id and recurses over both edge kinds, run by the constructor and load(); integer ids are never '
       'tested by truthiness; compile-time errors (undefined / temporary rule reference, reference and signing cycles via top_order, '
-      'unknown pattern, temporary pattern as value or argument, unknown signer) each have a guard raising SemanticError; every round '
+      'unknown pattern, temporary pattern as value or argument, unknown signer) each have a guard raising SemanticError; the rule '
+      'reference graph receives every reference of every definition of a rule (no entry re-initialised per definition); every round '
       'of top_order removes a node or raises. That every ill-formed schema is caught, and termination of _match on every accepted '
       'model beyond the tree property, are not decided.',
       'docs/src/lvs/binary-format.rst lists exactly the mandatory rules')
@@ -150,7 +153,8 @@ claim('C02', 'extracted model field order vs signed-portion definition, wiring/p
       'slice is wire[start:offset] taken before the signature TLV is written and wire[start:offset_btl] at parse; every name component '
       'except the parameters digest is covered; signature before digest, digest over the shrunk range, written into the name; every '
       'signer/verifier/digest checker consumes all covered blocks in order; digest checkers are truthy only through digest == value and '
-      'refuse empty parts; signer and verifier agree on type constant and scheme parameters; verifiers return True only after verify(). '
+      'refuse empty parts; signer and verifier agree on type constant and scheme parameters; verifiers return True only after verify(); '
+      'both front-ends run the parameters-digest check whenever parameters are present (even empty) or a signature is (shared with C05). '
       'Cryptographic soundness (tampering is rejected) is not decided.',
       'Cryptodome primitives; NDN packet format 0.3 signed-portion definition as transcribed')
 
